@@ -57,6 +57,11 @@ Theorem C04_checker_builds_product : forall (M : Type) (op : M -> M -> M) (e : M
 Proof. exact checker_builds_product. Qed.
 Print Assumptions C04_checker_builds_product.
 
+Theorem C04_long_range_pairs_cover_gate : forall lo d k, (2 <= d)%nat -> (k < d)%nat ->
+  exists n, In n (lr_pairs lo d) /\ ((lo + k = n)%nat \/ (lo + k = S n)%nat).
+Proof. exact lr_pairs_cover. Qed.
+Print Assumptions C04_long_range_pairs_cover_gate.
+
 Local Open Scope nat_scope.
 Example C04_checker_example :
   let a := (mk 0 G2 (0::3::nil)) :: (mk 1 G1 (1::nil)) :: (mk 2 G2 (1::2::nil)) :: nil in
